@@ -258,7 +258,7 @@ Section WithOracles.
     | Some cname =>
         let hname := ("handle_" ++ cname)%string in
         match lookup_chain (pt_outgoing (proto_of w)) hname with
-        | None => raise (EUnsupported m (match w_pv w with Some v => v | None => default_protocol_version end))
+        | None => raise (EUnsupported m (pt_version (proto_of w)))
         | Some [] => raise (EEscape "abstract outgoing handler")
         | Some ((module, decs) :: _) =>
             match decs, out_body_of module hname with
